@@ -177,7 +177,12 @@ func (s *Scanner) Length() uint {
 		if lex.Type() == lexeme.EndTop {
 			// Found character after the end of the schema and spaces.
 			// Example: char "s" in "{} some text"
-			length = uint(lex.End()) - 1
+			length = uint(lex.End())
+			if s.hasTrailingCharacters {
+				// The foreign character was met one step earlier, while the
+				// last literal was still being closed.
+				length--
+			}
 			break
 		}
 
